@@ -102,6 +102,9 @@ mod libflavors {
         pub fn allow(e: &Env, user: Address) {
             AllowList::allow_user(e, &user);
         }
+        pub fn disallow(e: &Env, user: Address) {
+            AllowList::disallow_user(e, &user);
+        }
     }
     #[contractimpl(contracttrait)]
     impl FungibleToken for AllowLib {
@@ -123,6 +126,12 @@ mod libflavors {
     impl BlockLib {
         pub fn mint(e: &Env, to: Address, amount: i128) {
             Base::mint(e, &to, amount);
+        }
+        pub fn block(e: &Env, user: Address) {
+            BlockList::block_user(e, &user);
+        }
+        pub fn unblock(e: &Env, user: Address) {
+            BlockList::unblock_user(e, &user);
         }
     }
     #[contractimpl(contracttrait)]
@@ -405,6 +414,34 @@ impl Sim {
         let st = self.state();
         t.obs(&format!("{} {} now={} ev={} dem={}", tag, st, self.now, evs, dem));
     }
+    /// Closes the flavour's gate on account `i` (block / disallow / pause), observes every getter while it is
+    /// closed, and opens it again. To the model both steps are `advance n=0`: gating moves no token, so balances,
+    /// allowances and the supply must read exactly as before, and the supply must still be the sum of the balances.
+    fn gate_probe(&mut self, t: &mut Trace, i: usize) {
+        let e = &self.e;
+        let ai = v(e, self.u.a(i));
+        let a0 = v(e, self.u.a(0));
+        let (close, open, cargs, signer): (&str, &str, Vec<Val>, bool) = match self.flavor {
+            Flavor::BlockList => ("block_user", "unblock_user", vec![ai, a0], true),
+            Flavor::AllowList => ("disallow_user", "allow_user", vec![ai, a0], true),
+            Flavor::Pausable => ("pause", "unpause", vec![a0], true),
+            Flavor::BlockLib => ("block", "unblock", vec![ai], false),
+            Flavor::AllowLib => ("disallow", "allow", vec![ai], false),
+            _ => return,
+        };
+        let signers: Vec<&Address> = if signer { vec![self.u.a(0)] } else { vec![] };
+        for f in [close, open] {
+            let mut av = soroban_sdk::Vec::new(e);
+            for x in cargs.iter() {
+                av.push_back(*x);
+            }
+            let r = call(e, &self.tok, f, av, &signers);
+            assert!(r.is_some(), "gate call {} failed", f);
+            t.op("fungible advance n=0");
+            let st = self.state();
+            t.obs(&format!("ok {} now={} ev=- dem=-", st, self.now));
+        }
+    }
     fn advance(&mut self, t: &mut Trace, n: u32) {
         self.now += n;
         set_ledger(&self.e, self.now, self.min_temp, self.max_ttl);
@@ -552,6 +589,10 @@ fn scenario_lib_flavors(t: &mut Trace) {
         if s.supports("burn") { s.exec(t, "burn", &[1], 50, 0, &[1]); }
         if s.supports("burn") { s.exec(t, "burn", &[1], 50, 0, &[0]); }
         s.exec(t, "approve", &[1, 3], 30, 110, &[1]);
+        // closing the gate on the owner / the spender of a live allowance moves no allowance: every getter reads as before
+        s.gate_probe(t, 1);
+        s.gate_probe(t, 3);
+        s.gate_probe(t, 2);
         s.advance(t, 11);
         if s.supports("burn") { s.exec(t, "burn_from", &[3, 1], 30, 0, &[3]); }          // expired
         s.exec(t, "transfer_from", &[3, 1, 0], 1, 0, &[3]);
@@ -930,6 +971,11 @@ fn main() {
                 if s.now as u64 + (n as u64) < 90_000 {
                     s.advance(&mut t, n);
                 }
+                continue;
+            }
+            if r < 19 && !matches!(s.flavor, Flavor::Base) {
+                let i = rng.below(N as u64) as usize;
+                s.gate_probe(&mut t, i);
                 continue;
             }
             let kind = if r < 22 {
